@@ -72,6 +72,16 @@ macro_rules
 /-- discharger for `field_simp`: whatever form `field_simp` gives a denominator, reduce it to the hypotheses -/
 macro "epv_semi_rad_disch" : tactic => `(tactic| epv_semi_rad_with_default epv_semi_rad_ne)
 
+/-- a polynomial identity, possibly with denominators that could not be cleared (not known to be non-zero) and are written
+differently on the two sides (`1 / (γ * (γ - 1))` against `1 / γ / (γ - 1)`): `ring1`, after pushing inverses to the factors
+if need be -/
+macro "epv_semi_rad_ring" : tactic =>
+  `(tactic| first
+    | done
+    | ring1
+    | (simp only [div_eq_mul_inv, mul_inv, inv_inv] <;> ring1)
+    | (ring_nf; done))
+
 /-- `A = B` for two field expressions that agree after clearing the denominators the context declares
 non-zero — in whatever form the context declares it.  (`field_simp` alone often closes such a goal — then nothing
 is left to do — and otherwise leaves a polynomial identity.) -/
@@ -79,8 +89,8 @@ macro "epv_semi_rad_field" : tactic =>
   `(tactic| first
     | done
     | ring1
-    | (field_simp <;> first | ring1 | (ring_nf; done))
-    | (field_simp (disch := epv_semi_rad_disch) <;> first | ring1 | (ring_nf; done))
+    | (field_simp <;> epv_semi_rad_ring)
+    | (field_simp (disch := epv_semi_rad_disch) <;> epv_semi_rad_ring)
     | (ring_nf; done)
     | (epv_semi_inv_nf; ring_nf; done))
 
@@ -130,10 +140,11 @@ def isSum (e : Expr) : Bool := e.isAppOfArity ``HAdd.hAdd 6 || e.isAppOfArity ``
 end EPV.Bridge.SemiRad
 
 open Lean Elab Tactic Meta in
-/-- give `t` a name: if the context holds `nm : e = d` (left by an earlier call) with `t = e` provable by `tac`, rewrite `t`
-to `d`; otherwise `generalize nm : t = d` -/
-def EPV.Bridge.SemiRad.nameTerm (nm : Name) (t : Expr) (tac : TSyntax ``Lean.Parser.Tactic.tacticSeq) : TacticM Unit := do
-  let found ← withMainContext do
+/-- if the context holds `nm : e = d` (left by an earlier call of `nameTerm`) with `t = e` provable by `tac`, rewrite `t` to
+`d` everywhere in the goal -/
+def EPV.Bridge.SemiRad.unifyTerm (nm : Name) (t : Expr) (tac : TSyntax ``Lean.Parser.Tactic.tacticSeq)
+    (screen : Expr → Expr → Bool := fun _ _ => true) : TacticM Bool :=
+  withMainContext do
     let stx ← Term.exprToSyntax t
     let mut found := false
     for ldecl in ← getLCtx do
@@ -141,6 +152,7 @@ def EPV.Bridge.SemiRad.nameTerm (nm : Name) (t : Expr) (tac : TSyntax ``Lean.Par
       unless ldecl.userName.eraseMacroScopes == nm do continue
       let ty ← instantiateMVars ldecl.type
       unless ty.isAppOfArity ``Eq 3 do continue
+      unless screen t (ty.getArg! 1) do continue
       let d ← Term.exprToSyntax (ty.getArg! 2)
       let h ← Term.exprToSyntax ldecl.toExpr
       try
@@ -154,7 +166,12 @@ def EPV.Bridge.SemiRad.nameTerm (nm : Name) (t : Expr) (tac : TSyntax ``Lean.Par
         break
       catch _ => pure ()
     pure found
-  unless found do
+
+open Lean Elab Tactic Meta in
+/-- give `t` a name: the name of an already named term it equals (`unifyTerm`), otherwise `generalize nm : t = d` -/
+def EPV.Bridge.SemiRad.nameTerm (nm : Name) (t : Expr) (tac : TSyntax ``Lean.Parser.Tactic.tacticSeq)
+    (screen : Expr → Expr → Bool := fun _ _ => true) : TacticM Unit := do
+  unless ← EPV.Bridge.SemiRad.unifyTerm nm t tac screen do
     withMainContext do
       let stx ← Term.exprToSyntax t
       let hid := mkIdent nm
@@ -191,6 +208,37 @@ elab "epv_semi_rad_gen_sums" : tactic => EPV.Bridge.SemiRad.genSums false
 /-- … also those that contain (named or unnamed) real powers -/
 elab "epv_semi_rad_gen_sums!" : tactic => EPV.Bridge.SemiRad.genSums true
 
+namespace EPV.Bridge.SemiRad
+open Lean in
+/-- does `e` contain a quotient / inverse whose denominator is not a numeral? -/
+def hasProperDenominator (e : Expr) : Bool :=
+  (e.find? fun s => match realDenominator? s with
+    | some d => !(d.isAppOfArity ``OfNat.ofNat 3)
+    | none => false).isSome
+end EPV.Bridge.SemiRad
+
+open Lean Elab Tactic Meta in
+/-- a sum that stands in a NUMERATOR and is the same polynomial as an already named denominator sum (the total cross
+section `σ_a + σ_s` multiplying a bracket on one side, dividing on the other) gets that sum's atom too; other sums are
+left alone -/
+elab "epv_semi_rad_unify_sums" : tactic => do
+  let mut fuel := 40
+  let mut failed : Array Expr := #[]
+  while fuel > 0 do
+    fuel := fuel - 1
+    if (← getUnsolvedGoals).isEmpty then break
+    let tgt ← withMainContext do instantiateMVars (← getMainTarget)
+    let cands := (EPV.Bridge.SemiRad.collect EPV.Bridge.SemiRad.isSum tgt).filter fun f =>
+      !EPV.Bridge.SemiRad.hasProperDenominator f && !(f.find? EPV.Bridge.SemiRad.isRpow).isSome && !failed.contains f
+    let mut progress := false
+    for t in cands do
+      if ← EPV.Bridge.SemiRad.unifyTerm `epv_hsum t (← `(tacticSeq| ring1)) then
+        progress := true
+        break
+      else
+        failed := failed.push t
+    unless progress do break
+
 open Lean Elab Tactic Meta in
 /-- name the real powers `b ^ e` of the goal (innermost first): each becomes an atom, `epv_hpow : b ^ e = w` stays in the
 context, and two powers whose bases and exponents agree up to ring normalisation and `1/(a*b) = 1/a/b` get the SAME atom -/
@@ -204,8 +252,12 @@ elab "epv_semi_rad_gen_rpow" : tactic => do
     -- innermost first
     let some t := pows.find? (fun t => pows.all fun u => u == t || !(t.find? (· == u)).isSome)
       | break
+    -- two powers are compared only if their exponents are written alike (or are not plain symbols)
     EPV.Bridge.SemiRad.nameTerm `epv_hpow t
-      (← `(tacticSeq| (congr 1 <;> first | rfl | ring1 | (simp only [div_eq_mul_inv, mul_inv, inv_inv] <;> ring1))))
+      (← `(tacticSeq| (congr 1 <;>
+            first | (with_reducible rfl) | ring1 | (simp only [div_eq_mul_inv, mul_inv, inv_inv] <;> ring1))))
+      (fun a b => EPV.Bridge.SemiRad.isRpow b &&
+        (a.getArg! 5 == b.getArg! 5 || (a.getArg! 5).getAppNumArgs > 1 || (b.getArg! 5).getAppNumArgs > 1))
 
 /-- `A = B` for two LARGE field expressions with real powers that are the same formal rational function (no cancellation
 `x / x = 1` needed) written differently — a generated leaf that inlines its own copy of the density / temperature
@@ -216,7 +268,7 @@ macro "epv_semi_rad_big" : tactic =>
   `(tactic| first
      | done
      | (with_reducible rfl)
-     | (epv_semi_rad_gen_sums; epv_semi_rad_gen_rpow; epv_semi_rad_gen_sums!
+     | (epv_semi_rad_gen_sums; epv_semi_rad_gen_rpow; epv_semi_rad_gen_sums!; epv_semi_rad_unify_sums
         first | done | ring1 | (simp only [div_eq_mul_inv, mul_inv, inv_inv] <;> ring1)))
 
 /-- `epv_semi_rad_tree` for large leaves: closes with `epv_semi_rad_big` -/
